@@ -26,10 +26,13 @@ RULE = (
     "undefined macro, missing file). Histories (sequences of 2-40 pool operations, 120 in thorough; operations and 'repeat previous' drawn by Hypothesis, shrunk as one value) "
     "are executed in one process forked from a parent that never ran JASM; each step's outcome (value or exception type) is compared with the outcome of the same operation "
     "executed first in a fresh interpreter (baselines computed once per run). All ordered pairs (a, b) of the pool are additionally run a;b (exhaustive for history "
-    "length 2). Non-trivial: a step whose predecessor set a dimension that the step leaves at its default; distinct (predecessor, step) pairs are counted."
+    "length 2). Non-trivial: a step whose predecessor set a dimension that the step leaves at its default; distinct (predecessor, step) pairs are counted. A second family of "
+    "generated histories rewrites the files themselves between operations (rule, listing, binary and macro-library slots at fixed paths, new contents of the same byte length, "
+    "written in place within the same second) and matches them again; each match step is compared with the same operation on a private copy of the files as they are at that "
+    "step, run first in a separately forked process. Non-trivial there: a file read by an earlier operation is rewritten and read again."
 )
 ASSUMPTIONS = ["exception outcomes are compared by exception type", "the pool is a pure function of VERIF_SEED; pool files are immutable during a run"]
-FLOORS = {"has-nontrivial-step": 0.5}
+FLOORS = {"has-nontrivial-step": 0.5, "form=steps": 0.3, "rewrite-then-reread": 0.15}
 POOL_DIR = None
 _POOL = None
 _BASE = None
@@ -395,3 +398,214 @@ if __name__ == "__main__":
     if len(sys.argv) >= 4 and sys.argv[1] == "--one":
         ops = json.load(open(os.path.join(sys.argv[2], "pool.json")))
         print(json.dumps(run_op(ops[int(sys.argv[3])])))
+
+
+# ---------------------------------------------------------------------------------- generated histories with file rewrites
+# A second family of histories: the files themselves change between operations.  Slots (fixed paths inside the history's
+# directory) are rewritten in place - by construction with contents of the SAME byte length, within the same second - and
+# then matched again.  Every content is a pure function of a few small drawn integers, so a case stays a small JSON value.
+# Oracle per match step: the same operation on a private copy of the files *as they are at that step*, run first in a
+# separately forked process (which, like the history's own process, descends from a process that never ran a history).
+
+S_RULES, S_LISTINGS, S_LIBS = ["r0", "r1", "r2"], ["l0", "l1"], ["m0", "m1"]
+S_SLOTS = S_RULES + S_LISTINGS + S_LIBS + ["b0"]
+_PUSHPOP = ["push", "pop "]
+_REGS = ["%rbp", "%rbx", "%rax", "%rcx"]
+_TARGETS = ["401020", "402020", "40f020", "4010f0"]
+_INNER = ["movl", "lea ", "push", "pop "]
+
+
+def step_content(slot, v):
+    """Content of a slot for variant v (a list of small ints).  All variants of one slot have the same length."""
+    a, b, c = (list(v) + [0, 0, 0])[:3]
+    if slot in S_LISTINGS:
+        base = 0x401000 if slot == "l0" else 0x402000
+        I = [
+            (format(base, "x"), _PUSHPOP[a % 2].strip(), [_REGS[b % 4]]), (format(base + 1, "x"), "movl", ["$0x10", "%eax"]), (format(base + 6, "x"), "call", [f"{_TARGETS[c % 4]} <f>"]),
+            (format(base + 11, "x"), "lea", ["0x8(%rax)", _REGS[(b + 1) % 4]]), (format(base + 15, "x"), "jmp", [f"{_TARGETS[(c + 1) % 4]} <g>"]), (format(base + 20, "x"), _PUSHPOP[(a + 1) % 2].strip(), [_REGS[b % 4]]),
+            (format(base + 21, "x"), "call", ["*%rax"]), (format(base + 23, "x"), "ret", []), (format(base + 24, "x"), "push", ["%rax"]), (format(base + 25, "x"), "pop", ["%rax"]),
+        ]
+        return render(I)
+    if slot == "b0":
+        text = bytes([0x50 + (b % 4) + 8 * (a % 2), 0x48, 0x89, 0xE5, 0xE8, 0x10 + c % 4, 0, 0, 0, 0x48, 0x8B, 0x45, 0xF8, 0x58 + (b % 4), 0xC3])
+        hot = bytes([0x50 + 8 * ((a + 1) % 2), 0x58, 0x48, 0x8D, 0x44, 0x8B, 0x10 + 8 * (c % 2), 0xE8, 0, 0, 0, 0, 0xC3])
+        return make_elf([(".text", text, True), (".text.hot", hot, True), (".data", b"\x01\x02\x03\x04", False)], [("main", 1, 0), ("hot", 2, 0)])
+    if slot in S_LIBS:
+        tail = ["call", "jmp ", "ret ", "lea "][a % 4]
+        nm = "@lib_" + slot
+        return jasm_io.dump_yaml({"macros": [{"name": nm, "pattern": [{"$and": ["@inner_", tail]}]}, {"name": "@any_" + slot, "pattern": ["[^,|]{1,50}", "[^,|]{2,50}"][b % 2]}]})
+    # rules: template a, parameters b, c
+    t = a % 9
+    flag = [None, False, True]
+    if t == 0:
+        return jasm_io.dump_yaml(jasm_io.make_doc([{"pus": ["rb"]}, "mov"], flag[b % 3], flag[c % 3]))
+    if t == 1:
+        rng = [None, {"min": "401000", "max": "401fff"}, {"min": "0x402000", "max": "0x40ffff"}][b % 3]
+        return jasm_io.dump_yaml(jasm_io.make_doc([{["call", "jmp"][c % 2]: ["valid_addr"]}], config={"valid_addr_range": rng} if rng else None))
+    if t == 2:
+        secs = [None, [".text"], [".text.hot"], [".text.hot", ".text"]][b % 4]
+        return jasm_io.dump_yaml(jasm_io.make_doc([["push", "pop", "lea"][c % 3]], config={"sections": secs} if secs else None))
+    if t == 3:
+        return jasm_io.dump_yaml(jasm_io.make_doc([{"push": ["&r"]}, {"pop": ["&r"]}] if b % 2 else [{"p": ["&x"]}, "mov", {"call": ["&y"]}]))
+    if t == 4:
+        lib = S_LIBS[b % 2]
+        return jasm_io.dump_yaml(jasm_io.make_doc(["@lib_" + lib], macros=[{"name": "@inner_", "pattern": _INNER[c % 4].strip()}]))
+    if t == 5:
+        style = [None, "att", "intel"][b % 3]
+        return jasm_io.dump_yaml(jasm_io.make_doc([["ret", "call", "mov"][c % 3]], config={"style": style} if style else None))
+    if t == 6:
+        return jasm_io.dump_yaml(jasm_io.make_doc(["mov"], config={"mnemonics-full-match": "yes"} if b % 2 else {"sections": "text"}))
+    if t == 7:
+        lib = S_LIBS[b % 2]
+        return jasm_io.dump_yaml(jasm_io.make_doc([{"push": ["@any_" + lib]}, "mov"], macros=[{"name": "@unused_", "pattern": "x"}]))
+    return jasm_io.dump_yaml(jasm_io.make_doc([{"call": [_TARGETS[b % 4][:4]]}] if c % 2 else [{"jmp": [_TARGETS[b % 4][-3:]]}]))
+
+
+@st.composite
+def step_histories(draw, max_len=24):
+    v3 = st.lists(st.integers(0, 11), min_size=3, max_size=3)
+    init = {s: draw(v3) for s in S_SLOTS}
+    steps = []
+    for _ in range(draw(st.integers(3, max_len))):
+        k = draw(st.integers(0, 9))
+        if k <= 2:
+            s = draw(st.sampled_from(S_SLOTS))
+            steps.append({"op": "write", "slot": s, "v": draw(v3)})
+        elif k == 3 and any(x["op"] == "match" for x in steps):
+            steps.append(dict([x for x in steps if x["op"] == "match"][-1]))  # ask the previous question again
+        else:
+            binary = draw(st.integers(0, 3)) == 0
+            steps.append({"op": "match", "rule": draw(st.sampled_from(S_RULES)), "input": "b0" if binary else draw(st.sampled_from(S_LISTINGS)),
+                          "libs": draw(st.sampled_from([[], ["m0"], ["m1"], ["m0", "m1"], ["m1", "m0"]])),
+                          "mode": [draw(st.sampled_from(["bool", "list"])), draw(st.sampled_from(["first", "all"])), draw(st.booleans())]})
+    if not any(x["op"] == "match" for x in steps):
+        steps.append({"op": "match", "rule": "r0", "input": "l0", "libs": [], "mode": ["list", "all", True]})
+    return {"form": "steps", "init": init, "steps": steps}
+
+
+def _slot_path(d, slot):
+    return os.path.join(d, slot + (".yaml" if slot[0] in "rm" else ".o" if slot == "b0" else ".s"))
+
+
+def _write_slot(d, slot, v):
+    data = step_content(slot, v)
+    with open(_slot_path(d, slot), "wb" if isinstance(data, bytes) else "w") as f:
+        f.write(data)
+
+
+def _run_step_match(d, stp):
+    return run_op({"rule": _slot_path(d, stp["rule"]), "input": _slot_path(d, stp["input"]), "binary": stp["input"] == "b0",
+                   "macros": [_slot_path(d, m) for m in stp["libs"]] or None, "mode": stp["mode"]})
+
+
+def _forked(fn):
+    r, w = os.pipe()
+    pid = os.fork()
+    if pid == 0:
+        os.close(r)
+        try:
+            out = fn()
+        except BaseException as exc:  # noqa: BLE001
+            out = ["harness-error", repr(exc)]
+        try:
+            os.write(w, pickle.dumps(out))
+        finally:
+            os._exit(0)
+    os.close(w)
+    buf = b""
+    while True:
+        chunk = os.read(r, 1 << 16)
+        if not chunk:
+            break
+        buf += chunk
+    os.close(r)
+    os.waitpid(pid, 0)
+    return pickle.loads(buf)
+
+
+def eval_steps(case):
+    ev = Eval()
+    sc = jasm_io.scratch()
+    root = os.path.join(sc.dir, "c14_steps_%d" % os.getpid())
+    shutil.rmtree(root, ignore_errors=True)
+    hist = os.path.join(root, "hist")
+    os.makedirs(hist)
+    state = dict(case["init"])
+    steps = case["steps"]
+    # baselines: per match step, a private directory with the files as they are at that step, matched in its own process
+    base = {}
+    for k, stp in enumerate(steps):
+        if stp["op"] == "write":
+            state[stp["slot"]] = stp["v"]
+            continue
+        d = os.path.join(root, f"base_{k}")
+        os.makedirs(d)
+        for s, v in state.items():
+            _write_slot(d, s, v)
+        base[k] = _forked(lambda d=d, stp=stp: _run_step_match(d, stp))
+
+    def run_history():
+        for s, v in case["init"].items():
+            _write_slot(hist, s, v)
+        outs = {}
+        for k, stp in enumerate(steps):
+            if stp["op"] == "write":
+                _write_slot(hist, stp["slot"], stp["v"])  # in place: same path, same length, (almost always) the same second
+            else:
+                outs[k] = _run_step_match(hist, stp)
+        return outs
+
+    outs = _forked(run_history)
+    shutil.rmtree(root, ignore_errors=True)
+    if isinstance(outs, list) and outs and outs[0] == "harness-error":
+        raise RuntimeError(outs[1])
+    nmatch = 0
+    rewritten = set()
+    used = set()
+    nontrivial = False
+    for k, stp in enumerate(steps):
+        if stp["op"] == "write":
+            rewritten.add(stp["slot"])
+            continue
+        nmatch += 1
+        files = {stp["rule"], stp["input"], *stp["libs"]}
+        if files & rewritten & used:
+            nontrivial = True  # a file that an earlier operation read has been rewritten since and is read again
+        used |= files
+        got, want = outs.get(k), base[k]
+        if isinstance(want, list) and want and want[0] == "harness-error":
+            raise RuntimeError(want[1])
+        if "inconclusive" in (got[0], want[0]):
+            ev.inconclusive += 1
+            continue
+        if got[0] == "exc" and got[1] == "SecondCallOnSameInstanceDiffers":
+            ev.dev("repeat-on-same-instance-differs", step=k, operation=stp)
+            break
+        if got != want:
+            ev.dev("history-dependent-result", step=k, operation=stp, expected_as_first_in_fresh_process=_short(want), observed=_short(got),
+                   history=[x if x["op"] == "write" else {"op": "match", "rule": x["rule"], "input": x["input"]} for x in steps[:k]][-6:])
+            break
+    ev.subcases = nmatch
+    ev.tags = ["form=steps"] + (["rewrite-then-reread"] if nontrivial else []) + (["has-nontrivial-step"] if nontrivial else [])
+    ev.nontrivial = nontrivial
+    ev.sample = {"steps": steps[:10], "length": len(steps)}
+    return ev
+
+
+_pool_strategy = strategy
+_pool_evaluate = evaluate
+_pool_export = export_case
+
+
+def strategy(tier):  # noqa: F811
+    return st.one_of(_pool_strategy(tier), step_histories(24 if tier == "quick" else 60))
+
+
+def evaluate(case):  # noqa: F811
+    if case.get("form") == "steps":
+        return eval_steps(case)
+    return _pool_evaluate(case)
+
+
+def export_case(case):  # noqa: F811
+    return case if case.get("form") == "steps" else _pool_export(case)
